@@ -297,4 +297,32 @@ Definition ftrl_history (p : fparams) (d : nat) (z0 : list F) (bs : list (list r
   : list F * list F :=
   fold_left (ftrl_update p d) bs (z0, map (fun _ => zero o) z0).
 
+(** ** memory layouts of the record matrix (robustness sweep "layout x scale")
+    Only two places of the four learners have an arithmetic order that depends on the layout of their inputs:
+    - FTRL `diff.dot(x)` = `x.t().dot(diff)`: per column of x `unrolled_dot` when the column view is contiguous
+      (`as_slice()` succeeds: stride 1, or at most one row), the sequential loop otherwise.  For standard
+      row-major records that is [d = 1 or n <= 1] (ftrl_gradient above); column-major records have contiguous
+      columns whatever d; reversed, strided and row-major (d > 1) ones have not.
+    - k-means `dist_fn.distance(old_centroids, new_centroids)` folds a `Zip` over two matrices that share the
+      layout of the Precomputed initial centroids: column-major centroids are walked in memory order, i.e.
+      column by column.
+    Everything else (class filtering, Welford variance, row views in the assignment and in the incremental
+    update, row sums of fewer than 8 features) visits the elements in logical order. *)
+Definition ftrl_gradient_lay (contig : bool) (d : nat) (X : list row) (y : list bool) (ps : list F) : list F :=
+  let diff := map2 (fun pr (t : bool) => pr - (if t then one o else zero o)) ps y in
+  map (fun c => if contig then udot c diff else sdot c diff) (cols d X).
+Definition ftrl_update_lay (p : fparams) (d : nat) (st : list F * list F)
+           (b : bool * list row * list bool * list F) : list F * list F :=
+  let '(contig, X, y, ps) := b in ftrl_apply p st (ftrl_gradient_lay contig d X y ps).
+
+(* the flattening `Zip` walks: row by row, or column by column for column-major centroids *)
+Definition flat (colmajor : bool) (cs : list row) : list F :=
+  if colmajor then concat (cols (match cs with [] => 0%nat | c0 :: _ => length c0 end) cs) else concat cs.
+Definition km_fit_with_lay (colmajor : bool) (m : metric) (tol : F) (st : kstate) (X : list row) : kstate * bool :=
+  let a := assign o m (k_centroids st) X in
+  let nc := compute_incr X (map fst a) (k_centroids st) (k_counts st) in
+  let inertia := usum o (map snd a) / nN (length X) in
+  let dst := dist o m (flat colmajor (k_centroids st)) (flat colmajor (fst nc)) in
+  ({| k_centroids := fst nc; k_counts := snd nc; k_inertia := inertia |}, ltb o dst tol).
+
 End Models.
